@@ -10,6 +10,7 @@ from ..core import (AnalysisError, call_name, dotted, is_const, kwarg, local_def
 from ..facts import guards_of, returns_of, enclosing_loops, default_of
 from ..rules import matcher as M
 from ..rules.memo import memo_sites
+from ..pattern import pmatch, pfind
 
 GM = "synkit/Graph/Matcher/graph_matcher.py"
 SM = "synkit/Graph/Matcher/subgraph_matcher.py"
@@ -181,12 +182,13 @@ def helpers(rep):
                sorted(m for m, _ in s.methods), "both containment modes are served", node=s.call)
     # find_graph_isomorphism: Matcher(G1, G2), mapping returned as is (documented G1 -> G2)
     fi = rep.f(MO, "find_graph_isomorphism")
-    calls = [c for c in walk_local(fi.node) if isinstance(c, ast.Call) and isinstance(c.func, ast.Name) and c.func.id == "Matcher"]
-    rep.need("R2", len(calls), 1, "Matcher(G1, G2) in find_graph_isomorphism")
+    calls = [n for n, b in pfind("$M(G1, G2, node_match=node_match, edge_match=edge_match)", fi.node)]
+    rep.need("R2", len(calls), 1, "<Matcher>(G1, G2, ...) in find_graph_isomorphism")
     c = calls[0]
+    mvar = c.func.id
     rep.ob("O7.1", "R2", fi, [norm(x) for x in c.args[:2]] == fi.params[:2], c, "the matcher is built (G1, G2) so that .mapping is G1 -> G2 as documented", node=c)
     defs = local_defs(fi.node)
-    kinds = {norm(d.value).split(".")[-1] for d in defs.get("Matcher", []) if d.value is not None}
+    kinds = {norm(d.value).split(".")[-1] for d in defs.get(mvar, []) if d.value is not None}
     rep.ob("O7.1", "R2", fi, kinds <= M.MATCHER_CLASSES and bool(kinds), sorted(kinds), "the matcher class is a networkx (Di/Multi)GraphMatcher")
     rets = [r for r in returns_of(fi.node) if r.value is not None and "mapping" in norm(r.value)]
     pm = parent_map(fi.node)
@@ -260,7 +262,7 @@ def pre_check(rep):
     # locate the WL containment return
     wl_ret = None
     for st in walk_local(fi.node):
-        if isinstance(st, ast.Return) and st.value is not None and "wl" in norm(st.value).lower() and ">=" in norm(st.value):
+        if isinstance(st, ast.Return) and st.value is not None and pmatch("all(($h.get($k, 0) >= $c for $k, $c in $p.items()))", st.value) is not None:
             wl_ret = st
     if wl_ret is None:
         rep.note("C07: no WL containment test left in _pre_check (nothing to guard)")
@@ -286,7 +288,10 @@ def pre_check(rep):
     rep.ob("O7.3", "FILTER", fi, None if und else (not reached and not rejected), "wl1_filter=False", "with the filter off the pre-check passes every size-compatible pair", node=fi.node)
     if wl_ret is not None:
         v = wl_ret.value
-        ok = isinstance(v, ast.Call) and call_name(v) == "all" and "h_wl.get(lbl, 0) >= cnt" in norm(v) and "p_wl.items()" in norm(v)
+        m_ = pmatch("all(($h.get($k, 0) >= $c for $k, $c in $p.items()))", v)
+        d_ = local_defs(fi.node)
+        ok = m_ is not None and norm(origin(d_, ast.Name(id=m_["h"], ctx=ast.Load()))) == "self._wl_hash_cached(host)" \
+            and norm(origin(d_, ast.Name(id=m_["p"], ctx=ast.Load()))) == "self._wl_hash_cached(pattern)"
         rep.ob("O7.3", "FILTER", fi, True if ok else None, v, "WL filter = multiset containment of the pattern's labels in the host's", node=wl_ret)
 
 
@@ -391,7 +396,9 @@ def use_filter(rep):
                 if size_like:
                     kind = "SIZE"
                     ok = not any(vals)
-                elif txt in ("not found_match",) and sense:
+                elif isinstance(t, ast.UnaryOp) and isinstance(t.op, ast.Not) and isinstance(t.operand, ast.Name) and sense \
+                        and any(isinstance(n_, ast.Assign) and norm(n_.targets[0]) == t.operand.id and is_const(n_.value, True) for n_ in walk_local(blk)) \
+                        and any(isinstance(n_, ast.Assign) and norm(n_.targets[0]) == t.operand.id and is_const(n_.value, False) for n_ in walk_local(blk)):
                     kind, ok = "LABEL-AVAILABLE", True
                 elif isinstance(t, ast.Compare) and isinstance(t.ops[0], ast.NotIn) and sense:
                     src = origin(local_defs(fi.node), t.comparators[0])
@@ -409,21 +416,21 @@ def compiled_predicates(rep):
     nms = [n for n in ast.walk(fi.node) if isinstance(n, ast.FunctionDef) and n is not fi.node]
     rep.need("R13", len(nms), 2, "nm closures in _compile_node_matcher")
     defs = local_defs(fi.node)
-    attrs_src = norm(origin(defs, ast.Name(id="attrs", ctx=ast.Load())))
     for clo in nms:
         try:
             pf = M.normalise_predicate(clo)
         except Undecided as exc:
             rep.ob("O7.4", "R13", fi, None, clo.name, str(exc), node=clo)
             continue
-        eq_ok = pf.eq_over <= {"_attrs", "attrs"}
+        dnames = {a.arg: d for a, d in zip(reversed(clo.args.args), reversed(clo.args.defaults))}
+        eq_ok = all(e in dnames or norm(origin(defs, ast.Name(id=e, ctx=ast.Load()))) == "self.node_attrs" for e in pf.eq_over)
         ok = pf.exact and eq_ok and pf.ge == [("hcount", 0, 1)] and not pf.other
         rep.ob("O7.4", "R13", fi, ok, f"nm({', '.join(pf.params)}) [eq over {sorted(pf.eq_over) or 'nothing'}]",
                "compiled node predicate == selected attributes equal AND G1.hcount >= G2.hcount",
                {"ge": pf.ge, "other": pf.other, "exact": pf.exact, "detail": pf.detail}, node=clo)
         if pf.eq_over:
-            dflt = [norm(d) for d in clo.args.defaults]
-            rep.ob("O7.4", "R13", fi, dflt == ["attrs"] and attrs_src == "self.node_attrs", f"_attrs={dflt} attrs={attrs_src}",
+            srcs_ = [norm(origin(defs, dnames[e])) if e in dnames else norm(origin(defs, ast.Name(id=e, ctx=ast.Load()))) for e in pf.eq_over]
+            rep.ob("O7.4", "R13", fi, srcs_ == ["self.node_attrs"], f"equality over {sorted(pf.eq_over)} <- {srcs_}",
                    "the predicate compares exactly the engine's node_attrs", node=clo)
     fe = rep.f(GM, "GraphMatcherEngine._compile_edge_matcher")
     ems = [n for n in ast.walk(fe.node) if isinstance(n, ast.FunctionDef) and n is not fe.node]
@@ -431,14 +438,15 @@ def compiled_predicates(rep):
     for clo in ems:
         try:
             pf = M.normalise_predicate(clo)
-            ok = pf.exact and pf.eq_over <= {"_attrs", "attrs"} and bool(pf.eq_over) and not pf.ge and not pf.other
+            ed_ = local_defs(fe.node)
+            dn_ = {a.arg: d for a, d in zip(reversed(clo.args.args), reversed(clo.args.defaults))}
+            srcs_ = [norm(origin(ed_, dn_[e])) if e in dn_ else norm(origin(ed_, ast.Name(id=e, ctx=ast.Load()))) for e in pf.eq_over]
+            ok = pf.exact and bool(pf.eq_over) and not pf.ge and not pf.other
             rep.ob("O7.4", "R13", fe, ok, f"em({', '.join(pf.params)})", "compiled edge predicate == selected edge attributes equal",
                    {"eq_over": sorted(pf.eq_over), "exact": pf.exact}, node=clo)
+            rep.ob("O7.4", "R13", fe, srcs_ == ["self.edge_attrs"], f"equality over {sorted(pf.eq_over)} <- {srcs_}", "the edge predicate compares exactly the engine's edge_attrs", node=clo)
         except Undecided as exc:
             rep.ob("O7.4", "R13", fe, None, clo.name, str(exc), node=clo)
-    ed = local_defs(fe.node)
-    rep.ob("O7.4", "R13", fe, norm(origin(ed, ast.Name(id="attrs", ctx=ast.Load()))) == "self.edge_attrs", "attrs = self.edge_attrs",
-           "the edge predicate compares exactly the engine's edge_attrs")
 
 
 def quick_pre_filter(rep):
@@ -497,8 +505,14 @@ def quick_pre_filter(rep):
     # rejections
     pm = parent_map(fi.node)
     for r in [n for n in walk_local(fi.node) if isinstance(n, ast.Return) and isinstance(n.value, ast.Constant) and n.value.value is True]:
-        gs = [norm(t).replace(" ", "") for t, s_ in guards_of(pm, r, fi.node) if s_]
-        ok = any(g_ == "count==0" for g_ in gs) or any(g_.startswith("estimate>threshold") for g_ in gs)
+        gts = [t for t, s_ in guards_of(pm, r, fi.node) if s_]
+        gs = [norm(t).replace(" ", "") for t in gts]
+        cnt_name = None
+        for n_ in walk_local(fi.node):
+            if isinstance(n_, ast.Assign) and n_.value is sums[0] and isinstance(n_.targets[0], ast.Name):
+                cnt_name = n_.targets[0].id
+        ok = any(pmatch("$c == 0", t, {"c": cnt_name or "count"}) is not None for t in gts) or \
+            any(pmatch("$e > threshold * $$k", t) is not None for t in gts)
         rep.ob("O7.4", "FILTER", fi, ok, f"return True under {gs}", "the pre-filter rejects only when some pattern node has no candidate or the estimate exceeds the threshold", node=r)
 
 
